@@ -93,8 +93,10 @@ pub fn check_on(c: &Case, ctx: &mut Ctx, ind: &mut Ind) -> Result<(), Failure> {
         let (applies, lo, hi) = match k {
             Kind::Rsi => {
                 let _ = rsi.next(x);
-                let den = rsi.up.cur.add(rsi.down.cur).to_f64();
-                (den >= 1e-250, -SLACK, 100.0 + SLACK)
+                // the range holds wherever the ratio is defined — also where both averages have decayed into the
+                // subnormal range (U/(U+D) of non-negative numbers; when both reach exactly 0 the documented
+                // neutral 50 is in range as well), so no gate on the reference denominator is needed here
+                (true, -SLACK, 100.0 + SLACK)
             }
             Kind::FastStoch => {
                 let (mx, mn) = if c.scalar { (wmax(&hist[w0..]), wmin(&hist[w0..])) } else { (wmax(&highs[w0..]), wmin(&lows[w0..])) };
@@ -140,7 +142,7 @@ pub fn check_on(c: &Case, ctx: &mut Ctx, ind: &mut Ind) -> Result<(), Failure> {
                 format!(
                     "{} ({} path) step {}: output {:e} outside [{:e}, {:e}]; last inputs {:?}",
                     c.cfg.tag(), if c.scalar { "scalar" } else { "bar" }, i, v, lo, hi,
-                    &bars[t.saturating_sub(n + 2)..].iter().map(|b| if c.scalar { vec![b.c] } else { vec![b.h, b.l, b.c, b.v] }).collect::<Vec<_>>()
+                    &bars[t.saturating_sub(n.saturating_add(2))..].iter().map(|b| if c.scalar { vec![b.c] } else { vec![b.h, b.l, b.c, b.v] }).collect::<Vec<_>>()
                 ),
             )?;
         }
@@ -232,7 +234,7 @@ fn strategy(lo: usize, hi: usize) -> BoxedStrategy<Case> {
 pub fn run(g: &mut Global) {
     g.rule = "exhaustive: scalar sequences over {1, 1+2^-20, 2, 5} for RSI, FAST_STOCH, SLOW_STOCH, ER with periods 1..=5; bar sequences over a 6-bar alphabet for FAST_STOCH, SLOW_STOCH, MFI; random: positive (grid-valued or free) prices / valid bars in regimes that push the extremes (long monotone runs, alternating extremes, spikes, near-flat with one-tick increments, volumes over 12 decades), periods to 512, streams to 5 000 (quick) / 50 000 (thorough). Oracle: range predicate [0,100] / [0,1] with 1e-9 slack (MFI: 100*tau(t)*c, applied iff c <= 1000), at every step whose double-double reference denominator is non-zero. Non-trivial = at least one checked output within 1e-6 of a bound, or period 1; distinct by hash of (kind, parameters, path, inputs).".into();
     g.assumptions = vec![
-        "RSI steps are checked iff the reference U+D >= 1e-250 (below that the step is a C08 step)".into(),
+        "RSI: the range is required at every step (U/(U+D) of non-negative averages, or the neutral 50 once both are exactly 0)".into(),
         "MFI windows with an ambiguous typical-price comparison are skipped (DESIGN.md section 3)".into(),
         "bars are valid (low <= close <= high), as the FastStochastic clause requires".into(),
     ];
@@ -347,6 +349,41 @@ pub fn run(g: &mut Global) {
     );
     let (lo, hi, cnt) = g.tier.pick((2000usize, 5000usize, 160u32), (20000usize, 50000usize, 1600u32));
     g.random("long", cnt, &move || strategy(lo, hi), &check);
+    // window-less period arguments at the top of the usize range (2^31, 2^32, 2^32+1, 2^33, 2^40, 2^53+1, 2^63,
+    // MAX-1, MAX): valid configurations like any other — a period converted through a narrower integer type or
+    // rounded on its way to the smoothing factor builds without complaint and computes something else
+    const BP: [usize; 9] = [1 << 31, 1 << 32, (1 << 32) + 1, 1 << 33, 1 << 40, (1 << 53) + 1, usize::MAX / 2 + 1, usize::MAX - 1, usize::MAX];
+    g.exhaustive(
+        "boundary_periods",
+        9 * 2,
+        &|i| {
+            let b = BP[(i % 9) as usize];
+            let cfg = if i / 9 == 0 { Cfg { kind: Kind::Rsi, p: vec![b], m: X(0.0) } } else { Cfg { kind: Kind::SlowStoch, p: vec![5, b], m: X(0.0) } };
+            let vals: Vec<f64> = (0..80).map(|j| 100.0 + if j % 2 == 0 { 10.0 } else { -7.5 } + (j % 9) as f64 * 0.375).collect();
+            Case { cfg, scalar: true, xs: xs(&vals), bars: vec![], stride: 0 }
+        },
+        &check,
+    );
+    // a long exactly flat tail after some movement, RSI with periods 1..=8: the averages of gains and losses decay
+    // through the subnormal range (to exactly 0 for periods 1..=3); the ratio is defined all the way down and the
+    // range holds at every step
+    g.exhaustive(
+        "flat_tails",
+        8 * 6,
+        &|i| {
+            let n = (i % 8) as usize + 1;
+            let v = (i / 8) as usize;
+            let mut vals: Vec<f64> = match v % 3 {
+                0 => vec![10.0, 10.5, 10.0, 9.5],
+                1 => vec![85.18, 86.0, 84.3, 85.0, 85.9, 85.9, 80.1],
+                _ => vec![0.1, 0.3, 0.2],
+            };
+            let level = [10.25, 85.18, 0.1][v % 3] * if v >= 3 { 1.0 } else { 1.0 + 1.0 / 64.0 };
+            vals.extend(std::iter::repeat(level).take(2600));
+            Case { cfg: Cfg { kind: Kind::Rsi, p: vec![n], m: X(0.0) }, scalar: true, xs: xs(&vals), bars: vec![], stride: 0 }
+        },
+        &check,
+    );
     if g.tier == Tier::Thorough {
         g.fuzz_stage("ops_pred", Some(0), 600_000, "random", &|b| crate::fuzzdec::decode_c07(b), &check);
     }
